@@ -20,6 +20,14 @@ CLAIMED = {
          "list: loop invariant elems(nbs) = NB(prefix); all 3x3 parameter combinations, filters, link classes (open class hierarchy) and positions of v "
          "are symbolic; exception outcomes have unchanged state. The FORWARD/BACKWARD count symmetry is proved pointwise per link (SMT) and lifted by a "
          "Lean-checked counting lemma."),
+ "C07": ("proof", "6/C07", "Each traversal (generator and list form) is proved to refine the canonical machine of the statement, written as a recurrence "
+         "whose defining equations are unfolded by the loop invariants: BFS A(k+1) = A(k) ++ new-in-universe-neighbours-of A(k)[k] (FIFO, mark on "
+         "enqueue), explicit-stack DFS (pop last, mark on pop, push all neighbours in order), recursive pre-order. The listing is therefore a "
+         "deterministic function of link order and parameters. The shortest-distance sentence is a theorem about the BFS recurrence, not about code "
+         "(Lean, or reported as derived-not-machine-checked)."),
+ "C08": ("proof", "6/C08", "Each search is proved to drive the same canonical machine as its traversal and to stop at the first listed vertex that matches "
+         "(has the attribute with a value == the sought one): invariant 'nothing listed so far matches'; the start vertex is eligible; truthiness of "
+         "vertices is an unconstrained predicate so any dependence on it fails; None only when the machine ran to completion without a match."),
  "C09": ("proof", "6/C09", "find_links is verified against the membership predicate `qual` of the statement (result set = {l in links(a) : joins a,b and qualifies}); "
          "the agreement with neighbors() is proved pointwise per link (qualifies <=> contributes [b]) and lifted to sizes by the Lean counting lemma; "
          "'empty after unlink, other pairs untouched' is a lemma over unlink's contract."),
